@@ -127,6 +127,35 @@ func (p plainCache) get(pk int64) (string, bool) {
 func (p plainCache) remove(pk int64) bool { return p.c.Remove(pk) }
 func (p plainCache) clear() int           { return p.c.Clear() }
 
+const nilV = 1000000
+
+func toAny(v int64) any {
+	if v == nilV {
+		return nil
+	}
+	return v
+}
+func fromAny(v any) int64 {
+	if v == nil {
+		return nilV
+	}
+	return v.(int64)
+}
+
+type anyCache struct {
+	c *lru.ECache[int64, int64, any]
+}
+
+func (p anyCache) get(pk int64) (string, bool) {
+	v, err := p.c.GetOrCreate(pk)
+	if err != nil {
+		return "", false
+	}
+	return nums(1, fromAny(v)), true
+}
+func (p anyCache) remove(pk int64) bool { return p.c.Remove(pk) }
+func (p anyCache) clear() int           { return p.c.Clear() }
+
 type item = lru.ExpirableItem[int64]
 
 type expCache struct {
@@ -184,6 +213,28 @@ func build(c Case, rec *recorder) cache {
 			panic(err)
 		}
 		return plainCache{cc}
+	case "icache":
+		// values of an interface type; the value nilV is the nil interface (a legal value as any other)
+		m := c.Mod
+		cc, err := lru.NewECache[int64, int64, any](c.Cap,
+			func(pk int64) int64 {
+				if m == 0 {
+					return pk
+				}
+				return pk % m
+			},
+			func(pk int64) (any, error) {
+				r := rec.next(pk)
+				if !r.Ok {
+					return int64(-1), errCreate
+				}
+				return toAny(r.V), nil
+			},
+			func(pk int64, v any) { rec.events = append(rec.events, nums(2, pk, fromAny(v))) })
+		if err != nil {
+			panic(err)
+		}
+		return anyCache{cc}
 	case "exp":
 		cc, err := lru.NewExpirableCache[int64, item](c.Cap,
 			func(pk int64) (item, error) {
@@ -389,22 +440,22 @@ func main() {
 	}
 
 	// 2. random sequences: Cache, ECache with pk mod 3, ExpirableCache
-	nrand := 1500
+	nrand := 2000
 	if thorough {
-		nrand = 20000
+		nrand = 26000
 	}
 	caps := []int{1, 2, 3, 4, 8, 33}
 	for i := 0; i < nrand; i++ {
 		r := prng.New(fl.Seed, "C08", uint64(i))
 		cap := prng.Pick(r, caps)
-		kind := []string{"cache", "ecache", "exp"}[i%3]
+		kind := []string{"cache", "ecache", "exp", "icache"}[i%4]
 		mod := int64(0)
 		nkeys := cap + 1 + r.Intn(3) // enough distinct keys to exceed the capacity
 		if cap == 33 && r.Chance(1, 2) {
 			nkeys = 30 + r.Intn(10)
 		}
 		npk := nkeys
-		if kind == "ecache" {
+		if kind == "ecache" || kind == "icache" {
 			mod = 3
 			if cap > 2 {
 				mod = int64(nkeys)
@@ -419,6 +470,9 @@ func main() {
 			}
 			next++
 			x := &Res{Ok: true, V: next}
+			if kind == "icache" && r.Chance(1, 3) {
+				x.V = nilV // the nil interface
+			}
 			if expirable {
 				// +-(30..90) minutes around the start of the harness
 				off := int64(r.Range(30*60, 90*60))
@@ -459,6 +513,6 @@ func main() {
 		emit(kind, cap, mod, ops)
 	}
 	s.Close(fmt.Sprintf("exhaustive: all call sequences of depth %d (every prefix is compared too) over {GetOrCreate k with create succeeding / failing, Remove k | k in 3 keys} + Clear from the empty cache for capacities 1..3, plus every %d-th sequence (keys numbered by first occurrence) of depth %d..%d; "+
-		"random: %d seeded sequences of 80 calls (capacities 1,2,3,4,8,33; more distinct keys than the capacity; 0-30%% failing creations) alternating lru.Cache, lru.ECache with pk mod m and several primary keys per inner key, lru.ExpirableCache with items expiring 30-90 min before/after the call. "+
+		"random: %d seeded sequences of 80 calls (capacities 1,2,3,4,8,33; more distinct keys than the capacity; 0-30%% failing creations) alternating lru.Cache, lru.ECache with pk mod m and several primary keys per inner key (values int64, and values of an interface type where a third of the created values is the nil interface), lru.ExpirableCache with items expiring 30-90 min before/after the call. "+
 		"distinct = by content hash; non-trivial = at least 3 calls with a successful creation and one other call", dEx, sampleOf, dEx+1, dSamp, nrand), false)
 }
